@@ -4,11 +4,13 @@
 //!   vcheck <ID> --replay <file>       re-run one recorded execution and print what it observed
 //!   vcheck --worker <ID> <tier>       (internal)
 
+pub mod adversary;
 pub mod checks;
 pub mod exec;
 pub mod explore;
 pub mod fabric;
 pub mod pool;
+pub mod probe;
 pub mod report;
 pub mod simrun;
 pub mod world;
@@ -70,7 +72,17 @@ fn main() {
         eprintln!("usage: vcheck <ID> quick|thorough | vcheck <ID> --replay <file>");
         std::process::exit(2);
     }
+    // anyhow would otherwise capture (and symbolise) a backtrace for every error the subject creates
+    std::env::set_var("RUST_LIB_BACKTRACE", "0");
+    std::env::set_var("RUST_BACKTRACE", "0");
+    if let Ok(f) = std::env::var("VERIF_TRACE") {
+        let _ = tracing_subscriber::fmt().with_env_filter(f).with_writer(std::io::stderr).without_time().try_init();
+    }
     exec::install_panic_hook();
+    if args[0] == "--probe-wrongname" {
+        probe::wrong_name_listener();
+        return;
+    }
     if args[0] == "--worker" {
         let check = checks::get(&args[1]).expect("unknown check");
         let tier = Tier::parse(&args[2]).expect("tier");
